@@ -212,6 +212,9 @@ PATTERN = {
     "qualified_multi": "Shape.Rect(w, h)",
     "qualified_wild": "Shape.Rect(_, h)",
     "unqualified_ctor": "Circle(r)",
+    "ctor_empty": "Foo()",
+    "ctor_empty_qualified": "Shape.Dot()",
+    "ctor_nested_empty": "Some(Foo())",
     "tuple": "(x, y)",
     "tuple_lit": "(0, _)",
     "tuple_nested": "((a, b), c)",
@@ -323,6 +326,12 @@ DECL = {
     "docstring_multi": '"""\nModule doc\n\nsecond paragraph\n"""',
     "docstring_quotes": '"""say "hi" and \'yo\'"""',
     "docstring_backslash": '"""path C:\\\\tmp and \\\\n"""',
+    "docstring_end_quote": '"""ends with a quote\\""""',
+    "docstring_triple_inside": '"""has \\"\\"\\" inside"""',
+    "docstring_bs_quote_end": '"""x\\\\\\""""',
+    "docstring_multi_quotes": '"""\nline "a" ""\nlast "q"\n"""',
+    "import_python_quote": 'import python "a\\"b"',
+    "import_python_alias": 'import python "numpy" as np',
     "import": "import foo",
     "import_path_colons": "import a::b::c",
     "import_path_dots": "import a.b.c",
@@ -387,6 +396,8 @@ DECL = {
     "model_two_methods": "model M:\n    a: int\n\n    def f(self) -> int:\n        return 1\n\n    def g(self) -> int:\n        return 2",
     "class": "class C:\n    x: int",
     "class_pub": "pub class C:\n    x: int",
+    "class_pub_field": "class C:\n    pub x: int\n    y: str",
+    "class_pub_field_method": "class C:\n    pub x: int\n\n    pub def m(self) -> int:\n        return self.x",
     "class_extends": "class C extends B:\n    x: int",
     "class_with": "class C with T1, T2:\n    x: int",
     "class_extends_with": "class C extends B with T1:\n    x: int",
@@ -649,10 +660,10 @@ def enumerate_cases(max_level=2):
             if c != "let_ann":
                 yield Case((f"type:{n}", f"tctx:{c}"), place(tpl, "T", t), 2)
     # ordered pairs of declarations (blank-line / ordering logic between declaration kinds)
-    reps = ["docstring", "import", "from_rust", "const_typed", "fn", "fn_decorated", "model_method", "class_methods", "trait_mixed", "newtype", "newtype_methods", "enum_data", "trait_abstract_nl"]
-    for a in reps:
-        for b in reps:
-            if b == "docstring":
+    # (every declaration atom followed by every other: per-declaration state of the formatter / parser must not leak)
+    for a in DECL:
+        for b in DECL:
+            if b.startswith("docstring"):
                 continue
             da, db = DECL[a], DECL[b]
             # avoid duplicate names: rename second
